@@ -2484,12 +2484,12 @@ def record_history_stage(ctx):
     col = Collector(ctx)
     hid = 0
     seeds = random.Random(ctx.seed * 1000003 + 9092)  # private stream: the draws of the older streams stay what they were
-    for family, nq, nt in (("random", 28, 320), ("two_applications", 16, 200), ("queries", 16, 200)):
+    for family, nq, nt in (("random", 26, 320), ("two_applications", 15, 200), ("queries", 15, 200)):
         for _ in range(ctx.n(nq, nt)):
             hid += 1
             hseed = seeds.randrange(1, 2 ** 31)
             ctx.stage(lambda c, hid=hid, hseed=hseed, family=family: run_record_history(c, col, hid, hseed, family))
-    col.run("record", shard=ctx.n(60, 200), header=RHEADER)
+    col.run("record", shard=ctx.n(100, 250), header=RHEADER)
 
 
 # ----------------------------------------------------------------------------
